@@ -1402,8 +1402,9 @@ ecdsa_verify(ec_curve_p curve, bn_p hash, bn_p sign_r, bn_p sign_s,
 	    NULL == sign_r || NULL == sign_s ||
 	    NULL == pub_key)
 		return (EINVAL);
-	if (bn_cmp(sign_r, &curve->n) >= 0 ||
-	    bn_cmp(sign_s, &curve->n) >= 0) /* sign_r and sign_s check. */
+	if (0 != bn_is_zero(sign_r) || 0 != bn_is_zero(sign_s) ||
+	    bn_cmp(sign_r, &curve->n) >= 0 ||
+	    bn_cmp(sign_s, &curve->n) >= 0) /* sign_r and sign_s check: [1, n - 1]. */
 		return (EINVAL);
 	/* Double size + 1 digit. */
 	bits = EC_CURVE_CALC_BITS_DBL(curve);
@@ -1574,8 +1575,9 @@ ecdsa_verify_priv_key(ec_curve_p curve, bn_p hash, bn_p sign_r, bn_p sign_s,
 	    NULL == sign_r || NULL == sign_s ||
 	    NULL == priv_key)
 		return (EINVAL);
-	if (bn_cmp(sign_r, &curve->n) >= 0 ||
-	    bn_cmp(sign_s, &curve->n) >= 0) /* sign_r and sign_s check. */
+	if (0 != bn_is_zero(sign_r) || 0 != bn_is_zero(sign_s) ||
+	    bn_cmp(sign_r, &curve->n) >= 0 ||
+	    bn_cmp(sign_s, &curve->n) >= 0) /* sign_r and sign_s check: [1, n - 1]. */
 		return (EINVAL);
 	if (bn_cmp(priv_key, &curve->n) >= 0) /* Key check. */
 		return (EINVAL);
